@@ -12,10 +12,19 @@ tie    : * exact correspondence (Rat) with the compiled kernels
            `GeoGrid.angular_distance`, `Grid.euclidean_distance`,
            `GeoGrid.node_number`, `GeoNetwork.node_weights`,
            `*area_weighted_connectivity` under the property's tolerances
+         * round 2: exact correspondence (Rat) with `convert_lon_coordinates`,
+           `max_link_distance`, `(in|out|)average_link_distance(geometry_corrected)`
+           on the implementation's own distance matrix; the translator
+           translate/gen_C12.py regenerates Generated/StructC12.lean (loops,
+           expressions, clamps, stores, wiring) for the `src_*` theorems
 search : float64 closed forms (atan2 form cross-checked with haversine),
          bitwise symmetry, diagonal, range, triangle inequality over all
          triples, brute-force argmin in `Fraction`, `itertools.product`,
-         `cos(lat_i)` per node, link-distance measures from the closed form
+         `cos(lat_i)` per node, link-distance measures from the closed form;
+         round 2: twin objects (caller array width / layout, node permutation,
+         power-of-two rescaling), histories on one object, geometry_corrected,
+         area-weighted distance measures, the cosine-error hypotheses of theorem
+         angular_entry_error_combined measured on every run
 """
 import itertools
 import math
@@ -334,7 +343,12 @@ def run(ctx):
         "nodes, near nodes, poles and random points; rectangular grids with 1-4 axes of length "
         "0-4; distinct = distinct (suite, canonical input); non-trivial = at least 2 nodes "
         "(distance suites), at least 2 nodes at different distances (lookups), at least two "
-        "axes of length >= 2 (rect grids)")
+        "axes of length >= 2 (rect grids); round 2: caller arrays as float64 / float32 / float16 / "
+        "int64 / strided / Fortran / transposed views; node permutations; Euclidean coordinates "
+        "rescaled by 2^-10..2^30, lookups by 2^-20..2^40; 2-5 step histories on one grid / network "
+        "object; adjacency random / empty / isolated node / complete; geometry_corrected both ways; "
+        "longitudes k/4 in [-400, 800] for convert_lon_coordinates with sequences shorter / longer "
+        "than the grid")
     ctx.trusted = common.DEFAULT_TRUSTED + [
         "IEEE-754: float32 arithmetic on the dyadic kernel inputs is exact (all intermediate "
         "values have < 24 significant bits) — the reason the Rat model can be compared exactly",
@@ -1520,6 +1534,17 @@ def replay(ctx, rp):
         if w is None or any(abs(float(w[i]) - exp[i]) > TOL_W for i in range(len(lat))):
             ctx.fail(sig, f"{sig['class']}.node_weights are not the cos-lat weights",
                      dict(r, expected=exp, observed=None if w is None else [float(v) for v in w]))
+    elif kind == "convert-lon":
+        n, lon = r["N"], r["lon_seq"]
+        g = GeoGrid(np.arange(2), np.zeros(n), np.zeros(n), silence_level=3)
+        got = [float(v) for v in g.convert_lon_coordinates(np.array(lon))]
+        for a, b in zip(lon, got):
+            ra, rb = math.radians(a), math.radians(b)
+            if abs(math.cos(ra) - math.cos(rb)) > 1e-12 or abs(math.sin(ra) - math.sin(rb)) > 1e-12 \
+                    or (0 <= a <= 360 and not (-180 < b <= 180)):
+                ctx.fail(sig, f"GeoGrid.convert_lon_coordinates: longitude {a} converted to {b}",
+                         dict(r, observed=got))
+                break
     else:
         print(f"[C12] no replay routine for signature {sig}; run ./check C12 with the same "
               "VERIF_SEED to regenerate the case")
